@@ -2,6 +2,8 @@ import GB.Base.Proto
 import GB.C08.Spec
 import GB.C08.Mime
 import GB.C08.Handoff
+import GB.C08.Trailer
+import GB.C08.Fence
 /-
   C08 — driver: judges one case line of the `c08` area.
 
@@ -241,6 +243,40 @@ def chunkBy (pat : List Nat) : Nat → Nat → Bytes → List Bytes
 
 def parsePattern (s : String) : List Nat := (s.splitOn "/").filterMap String.toNat?
 
+/-- Trace validation against the fence LTS (Fence.lean): the canonical schedule of an observed HTTP call — every wire
+    message is one Send whose helper runs Lock ; test ; Write ; Unlock; in a stalled-Send scenario the LAST helper has taken
+    the mutex and passed the test when Forward returns and writes only afterwards, the handler's Lock comes after its Unlock —
+    must be executable step by step, end with the trailer written, and its output must be the observed body (the trailer
+    lines compared as a multiset: Go map order). -/
+def fenceLabels (ws : Bool) (msgs : List Bytes) (stalledLast : Bool) (tr : MD) (oc : Nat) (om : Bytes) : List Fence.Lbl :=
+  let n := msgs.length
+  -- gRPC-WebSocket: the first send writes the header frame before its data frame, under the same lock
+  let wr (i : Nat) : List Fence.Lbl := if ws && i == 0 then [.hWriteHdr 0, .hWrite 0] else [.hWrite i]
+  let rec go (i : Nat) : List Bytes → List Fence.Lbl
+    | [] => [.setTrailer tr, .fwdReturn oc om]
+    | m :: rest =>
+      if stalledLast && i + 1 == n then [.send m, .hLock i, .hCheck i, .setTrailer tr, .fwdReturn oc om] ++ wr i ++ [.hUnlock i]
+      else [.send m, .hLock i, .hCheck i] ++ wr i ++ [.hUnlock i] ++ go (i + 1) rest
+  go 0 msgs ++ [.finLock, .finSet, .finUnlock, .writeTrailer]
+
+def fenceReplayOK (msgs : List Bytes) (stalledLast : Bool) (tr : MD) (oc : Nat) (om : Bytes) (md : MD) (body : Bytes) : Bool :=
+  match GB.LTS.run Fence.step (Fence.init .fixed .http) (fenceLabels false msgs stalledLast tr oc om) with
+  | some s =>
+    s.phase == .done && beqB (s.out.dropLast.flatten ++ lpmTrailer md) body &&
+    (match s.trW with | some t => mdLines t == mdLines md | none => false)
+  | none => false
+
+/-- the same over WebSocket: the observed message list must be the LTS output frame by frame (the two metadata frames
+    compared as line multisets: Go map order) -/
+def fenceReplayWSOK (msgs : List Bytes) (stalledLast : Bool) (sh tr : MD) (oc : Nat) (om : Bytes) (hmd md : MD) (wsm : List Bytes) : Bool :=
+  match GB.LTS.run Fence.step (Fence.init .fixed .ws) (Fence.Lbl.setHeader sh :: fenceLabels true msgs stalledLast tr oc om) with
+  | some s =>
+    let core (l : List Bytes) : List Bytes := (if s.hdrW.isSome then l.drop 1 else l).dropLast
+    s.phase == .done && s.out.length == wsm.length && beqBs (core s.out) (core wsm) &&
+    (match s.hdrW with | some h => mdLines h == mdLines hmd && wsm.head? == some (lpmTrailer hmd) | none => true) &&
+    (match s.trW with | some t => mdLines t == mdLines md && wsm.getLast? == some (lpmTrailer md) | none => false)
+  | none => false
+
 def handleHTTP (i o : List String) : String :=
   match kv? "k" i, kv? "rt" i, (kv? "fr" i).bind (parseList parseFrameD), (kv? "tl" i).bind parseCB,
         (kv? "rs" i).bind (parseList parseCB), (kv? "fs" i).bind parseCodeMsg,
@@ -295,13 +331,16 @@ def handleHTTP (i o : List String) : String :=
           let rvOK : Bool := early || (oresListEq rv mrv && chunkOK)
           let md := match parseTrailer block with | some m => m | none => []
           let bodyOK : Bool := beqB body (respondHTTPWith msgs md) &&
-            mdLines md == mdLines (trailerWithStatus tr oc om) && subMD tr tm
+            mdLines md == mdLines (encodeMD (trailerWithStatus tr oc om)) && subMD tr tm
           let ocOK : Bool := if routed then
               (match rv.getLast? with | some (.err c) => early || oc == c | _ => true)
             else routeOutcomeOK rt oc om && rv.isEmpty && tg.isEmpty && sd.isEmpty
           let gdOK : Bool := gd == goDecodeSummary msgs block
+          let fenceOK : Bool := !routed || body.length > 200000 ||
+            fenceReplayOK msgs (stalled && decide (msgs.length > sd.length)) tr oc om md body
           if !rvOK then s!"DIFF model=rv:{showResList mrv}"
           else if !bodyOK then "DIFF model=body"
+          else if !fenceOK then "DIFF model=fence-lts-replay"
           else if !ocOK then "DIFF model=outcome"
           else if !gdOK then s!"DIFF model=gd:{goDecodeSummary msgs block}"
           else
@@ -475,14 +514,21 @@ def handleWS (i o : List String) : String :=
           let rvOK : Bool := (early && !stalled) || (ea != "-" && (kv? "sp" i) == some "flood") || oresListEq rv mrv
           let md := match parseTrailer block with | some m => m | none => []
           let hmd := match hdr with | some h => (match parseTrailer h with | some m => m | none => [([0], [])]) | none => []
-          let respOK : Bool := beqBs wsm (wsRespondWith hmd msgs md) && (hdr.isSome == !msgs.isEmpty) && hmd.isEmpty &&
-            mdLines md == mdLines (trailerWithStatus tr oc om) && subMD tr tm
+          -- response header metadata: scripted (`hm=`), what the forwarder handed to SetHeader (`sh=`), the header frame on the wire
+          let hm := ((kv? "hm" i).bind (parseList parseKV)).getD []
+          let sh := ((kv? "sh" o).bind (parseList parseKV)).getD []
+          let respOK : Bool := beqBs wsm (wsRespondWith hmd msgs md) && (hdr.isSome == !msgs.isEmpty) &&
+            (hdr.isNone || mdLines hmd == mdLines (encodeMD sh)) && subMD sh hm &&
+            mdLines md == mdLines (encodeMD (trailerWithStatus tr oc om)) && subMD tr tm
           let ocOK : Bool := if routed then
               ocs != "-" && (match rv.getLast? with | some (.err c) => early || oc == c | _ => true)
             else if !hdOK then oc == 3 && ocs == "-" && rv.isEmpty && tg.isEmpty && sd.isEmpty
             else ocs != "-" && routeOutcomeOK rt oc om && rv.isEmpty && tg.isEmpty && sd.isEmpty
+          let fenceOK : Bool := !routed || !hdOK || (wsm.foldl (fun a m => a + m.length) 0) > 200000 ||
+            fenceReplayWSOK msgs (stalled && decide (msgs.length > sd.length)) sh tr oc om hmd md wsm
           if !rvOK then s!"DIFF model=rv:{showResList mrv}"
           else if !respOK then "DIFF model=ws-messages"
+          else if !fenceOK then "DIFF model=fence-lts-replay"
           else if !ocOK then "DIFF model=outcome"
           else
             let big : Bool := items.any (fun it => (WSItem.enc it).length ≥ 65536) || rs.any (fun m => m.length ≥ 65536)
@@ -523,7 +569,7 @@ def handle : Handler
           match parseTrailer block with
           | some omd =>
             if w ≠ lpmTrailer omd then "DIFF model=lpmTrailer"
-            else if mdLines omd ≠ mdLines (trailerWithStatus md c m) then "DIFF model=trailerWithStatus"
+            else if mdLines omd ≠ mdLines (encodeMD (trailerWithStatus md c m)) then "DIFF model=trailerWithStatus"
             else "OK nt b=trl"
           | none => "VIOL trailer block unparsable"
       | _ => "VIOL not a single trailer frame"
